@@ -447,7 +447,7 @@ func main() {
 					m := append(append(append([]byte{}, seed[:i]...), ins), seed[i:]...)
 					check(m, "byte-inserted")
 				}
-				check(seed[:i], "truncated")
+				check(append(make([]byte, 0, i), seed[:i]...), "truncated") // exact capacity: a read past the end must not find the cut-off bytes
 			}
 			for _, tr := range [][]byte{{0}, {0x80, 0}, {0x08, 0}, {0x7a, 0}} {
 				check(append(append([]byte{}, seed...), tr...), "trailing-bytes")
